@@ -33,6 +33,11 @@ Accepts(ev) ==
          /\ G("C18", "ArrayFrontBack", /\ ev.front = ev.vals[1] /\ ev.back = ev.vals[Len(ev.vals)]
                                         /\ ev.hfront = ev.hvals[1] /\ ev.hback = ev.hvals[Len(ev.hvals)]
                                         /\ ev.onefront = ev.oneback)
+         /\ G("C18", "ArrayConstAccessorsAgree", /\ ev.cidx = ev.vals /\ ev.citer = ev.vals /\ ev.cciter = ev.vals
+                                                  /\ ev.cfront = ev.vals[1] /\ ev.cback = ev.vals[Len(ev.vals)]
+                                                  /\ ev.chfront = ev.hvals[1] /\ ev.chback = ev.hvals[Len(ev.hvals)]
+                                                  /\ ev.cdata0 = ev.vals[1] /\ ev.data0 = ev.vals[1] /\ ev.cget3 = ev.vals[4]
+                                                  /\ ev.maxsize = Len(ev.vals) /\ ev.empty = 0)
          /\ G("C18", "ArrayComparison", ev.eq_same = 1 /\ ev.eq_diff = 0)
          /\ G("C18", "ArrayConcatAndGet", ev.cat = ev.catexp /\ ev.get0 = ev.vals[1] /\ ev.get3 = ev.vals[4])
     [] ev.e = "Sort" ->
